@@ -239,6 +239,19 @@ func main() {
 		if c.Mine(name) && !c.TimeUp() {
 			runProgram(c, base, name)
 		}
+		// (1b) a second, overlapping branch on a branching node (several branches converging on one successor)
+		if len(base.Nodes) <= 3 {
+			for _, sb := range gprog.SecondBranchVariants(base, true) {
+				for _, mode := range []string{gprog.MDag, gprog.MWorkflow} {
+					q := *sb
+					q.Mode = mode
+					name := "2br/" + q.String()
+					if c.Mine(name) && !c.TimeUp() {
+						runProgram(c, &q, name)
+					}
+				}
+			}
+		}
 		// (2) Workflow variants
 		for _, wp := range workflowVariants(base) {
 			name := "wf/" + wp.String()
